@@ -420,13 +420,25 @@ def record_pad(fields, lens, vals, style, entry):
     cfg = dict(fields=[dict(t=f["t"], tail=list(f["tail"])) for f in fields], B=B, len=lens, vals=vals, style=style,
                entry=("wrapper" if entry == "wrapper2" else entry), variant=entry, skeys=skeys, svals=svals)
 
+    # every third multi-field case: the SAME PadSequencesCollator object served another pipeline with another item order
+    # before (one collator object shared by two compositions); it keeps no state between batches
+    shared = K >= 2 and entry in ("compose", "wrapper") and (sum(sum(row) for row in lens) + B) % 3 == 0
+
     def build_and_call():
+        member = PadSequencesCollator()
+        if shared:
+            rmode = " ".join(f"f{k + 1}" for k in reversed(range(K)))
+            rmw = ModeWrapper(c["PadDS"](fields, vals), mode=rmode, return_ctx=sctx)
+            try:
+                KDSingleCollatorWrapper(member, dataset_mode=rmode, return_ctx=rc)([rmw[i] for i in range(B)])
+            except Exception:  # noqa: the earlier pipeline is not the observation
+                pass
         if entry == "compose":
-            col = KDComposeCollator([PadSequencesCollator()], dataset_mode=mode, return_ctx=rc)
+            col = KDComposeCollator([member], dataset_mode=mode, return_ctx=rc)
         elif entry == "single":
             col = PadSequencesCollator(dataset_mode=mode, return_ctx=rc)
         elif entry == "wrapper":
-            col = KDSingleCollatorWrapper(PadSequencesCollator(), dataset_mode=mode, return_ctx=rc)
+            col = KDSingleCollatorWrapper(member, dataset_mode=mode, return_ctx=rc)
         else:
             # the wrapped collator was built with a configuration of its own: the wrapper's configuration counts
             col = KDSingleCollatorWrapper(PadSequencesCollator(dataset_mode="f1", return_ctx=not rc), dataset_mode=mode,
